@@ -24,7 +24,7 @@ RULE = ("case = helper x array of 1..50 elements (float / int / list; non-unifor
 HELPERS = ["oversample_linspace", "oversample_piecewise_constant", "extend_linspace", "extend_constant",
            "append_one_sample", "integrals", "sum_over_indices", "interval_getset", "interval_2d", "interval_closed",
            "interval_methods", "interval_object_history", "average", "round_trip"]
-REQUIRED_MONITORS = ["c17:" + h for h in HELPERS]
+REQUIRED_MONITORS = ["c17:" + h for h in HELPERS] + ["c17:user_oversample_method"]
 ASSUMPTIONS = ["n >= 1; extension by n requires at least n+1 elements when the default mirror point is used"]
 NSHARDS = 16
 
@@ -51,6 +51,16 @@ def arr(rng, lo=1, hi=50, increasing=False):
     else:
         a = np.sort(rng.choice(np.arange(-30, 60), size=m, replace=False)).astype(float)
     return a
+
+
+def H_lin(values, k):
+    return np.asarray(H.oversample_linspace([float(v) for v in values], int(k)), dtype=float)
+
+
+def np_repeat_like(a, repeats):
+    """a user method with NumPy's own parameter name for the factor"""
+    a = np.asarray(a, dtype=float)
+    return np.repeat(a, repeats)[: (len(a) - 1) * repeats + 1]
 
 
 def same(got, want, mag, nan_ok=True):
@@ -262,16 +272,27 @@ def run_case(ctx, kind_, idx):
                 ctx.nontriv("c17", idx)
             elif h == "interval_methods":
                 a = arr(rng, 2, 40).astype(float)
-                n = int(rng.integers(1, 9))
-                num = int(rng.integers(1, 9))
+                n = int(rng.integers(1, 17))
+                num = int(rng.integers(1, 17))         # n * num reaches 256: beyond int8 and uint8
                 ia = IntervalArray(a.copy(), n)
-                o1 = ia.oversample_linspace(num)
-                o2 = ia.oversample_piecewise(num)
+                num_arg, numt = gen.count_arg(rng, num)          # the factor as Python int or NumPy integer scalar
+                o1 = ia.oversample_linspace(num_arg)
+                o2 = ia.oversample_piecewise(num_arg)
                 mag = float(np.max(np.abs(a)))
-                info.update({"len": len(a), "n": n, "num": num})
+                info.update({"len": len(a), "n": n, "num": num, "num_type": numt})
                 exp_n = n * num
                 if o1.n != exp_n or o2.n != exp_n:
                     return fail("oversample_interval_size", got=[o1.n, o2.n], want=exp_n)
+                # the public hook: oversample(num, method) with a user method "Callable[[array, int], ndarray]" - the
+                # second parameter is positional, whatever the user named it
+                if num >= 2:
+                    um = [lambda values, factor: np.repeat(np.asarray(values, dtype=float), factor)[: (len(values) - 1) * factor + 1],
+                          lambda arr_, k: H_lin(arr_, k), np_repeat_like][int(rng.integers(0, 3))]
+                    o3 = ia.oversample(num, um)
+                    ctx.monitor("c17:user_oversample_method")
+                    if o3.n != exp_n or len(o3.array) != (len(a) - 1) * num + 1 or \
+                            not np.array_equal(np.asarray(o3.array, float)[::num], a):
+                        return fail("user_oversample_method", got=[o3.n, len(o3.array)])
                 if not same(o1.array, H.oversample_linspace(list(a), num), mag) or \
                         not np.array_equal(np.asarray(o2.array, float), np.asarray(H.oversample_piecewise_constant(list(a), num), float)):
                     return fail("oversample_values")
